@@ -76,26 +76,26 @@ func writeEvidence(prop, tier string, seed int64, b *build, sr *searchResult, sa
 	}
 	distinct := sr.traces
 	cov := map[string]interface{}{
-		"evaluations":         max(runs, 1),
-		"distinct_nontrivial": distinct,
-		"nontrivial_runs":     nontrivial,
-		"rule":                rule,
-		"samples":             samples,
-		"exhaustive":          false,
-		"runs_per_hour":       int(float64(runs) / maxf(sr.wall, 0.001) * 3600),
-		"seeds":               map[string]interface{}{"verif_seed": seed, "run_index_first": first, "run_index_last": last, "workers": len(sr.sums)},
-		"logical_steps":       logical,
-		"logical_steps_note":  "go-ucfg has no clock, timers, network or disk; simulated time is reported as logical steps = instrumented function entries + loop iterations executed inside the library",
+		"evaluations":             max(runs, 1),
+		"distinct_nontrivial":     distinct,
+		"nontrivial_runs":         nontrivial,
+		"rule":                    rule,
+		"samples":                 samples,
+		"exhaustive":              false,
+		"runs_per_hour":           int(float64(runs) / maxf(sr.wall, 0.001) * 3600),
+		"seeds":                   map[string]interface{}{"verif_seed": seed, "run_index_first": first, "run_index_last": last, "workers": len(sr.sums)},
+		"logical_steps":           logical,
+		"logical_steps_note":      "go-ucfg has no clock, timers, network or disk; simulated time is reported as logical steps = instrumented function entries + loop iterations executed inside the library",
 		"max_steps_one_operation": maxOp,
-		"step_budget":         300000,
-		"state_changing_ops":  stateOps,
-		"faults_fired":        faults,
-		"probes":              probes,
-		"probes_stuck_at_zero": stuck,
-		"distinct_states":     sr.states,
-		"distinct_schedules":  sr.scheds,
-		"distinct_measure":    "states = hash of the canonical reference state after each step; schedules = hash of the sequence of (enumeration site, size, permutation) decisions of a run (for C11 also the release sequence of tasks)",
-		"foreign_observations": foreign,
+		"step_budget":             300000,
+		"state_changing_ops":      stateOps,
+		"faults_fired":            faults,
+		"probes":                  probes,
+		"probes_stuck_at_zero":    stuck,
+		"distinct_states":         sr.states,
+		"distinct_schedules":      sr.scheds,
+		"distinct_measure":        "states = hash of the canonical reference state after each step; schedules = hash of the sequence of (enumeration site, size, permutation) decisions of a run (for C11 also the release sequence of tasks)",
+		"foreign_observations":    foreign,
 		"components": map[string]interface{}{
 			"real": []string{"all of go-ucfg (root package, parse, diff, flag, cfgutil, yaml/json/hjson front-ends) compiled from /repo's working tree after the mechanical instrumentation R1-R6", "reflect, strconv and the rest of the standard library"},
 			"stub": stubsOf(prop),
@@ -107,6 +107,9 @@ func writeEvidence(prop, tier string, seed int64, b *build, sr *searchResult, sa
 		"tree":            map[string]string{"head": b.head, "dirty_sha": b.dirty},
 		"build_s":         b.buildS,
 		"search_wall_s":   sr.wall,
+	}
+	if phases != nil {
+		cov["phases"] = phases
 	}
 	ev := map[string]interface{}{
 		"property_id": prop,
